@@ -45,6 +45,7 @@ def load_findings():
 
 
 _G = {}
+EARLY_STOP = {"skipped": 0}
 
 
 def _init_worker(tier, seed):
@@ -187,9 +188,23 @@ def main(argv=None):
             # phase 2: every obligation is one task
             flat = [(o, it) for o in outs for it in o.pop("obls", [])]
             flat.sort(key=lambda p: -p[1]["size"])
-            res = pool.map(discharge_one, [it for _, it in flat], chunksize=1)
-            for (o, it), d in zip(flat, res):
-                o["results"].append(d)
+            # quick tier: once a handful of obligations have failed the verdict is settled; do not grind through
+            # hundreds of 10 s timeouts (thorough runs everything)
+            limit = 6 if tier == "quick" else 10 ** 9
+            failed = 0
+            skipped = 0
+            by_name = {it["name"]: o for o, it in flat}
+            done_names = set()
+            for d in pool.imap_unordered(discharge_one, [it for _, it in flat], chunksize=1):
+                by_name[d["name"]]["results"].append(d)
+                done_names.add(d["name"])
+                if d["status"] != "proved" and not d.get("known_finding"):
+                    failed += 1
+                    if failed >= limit:
+                        pool.terminate()
+                        skipped = len(flat) - len(done_names)
+                        break
+            EARLY_STOP["skipped"] = skipped
             for o in outs:
                 o["results"].sort(key=lambda d: int(d["name"].rsplit("#", 1)[1]) if "#" in d["name"] else 0)
     except Exception:
@@ -214,7 +229,7 @@ def main(argv=None):
             res.append(dict(name="scan:%s/%s" % (name, label), status="proved" if ok else "refuted", backend="ast-scan",
                             time_s=0.0, kind="scan", line=0, detail=detail, model=None, witness={}, size=len(detail)))
         outs.append(dict(target="scan:" + name, results=res, error=None, kind="scan", wall_s=round(time.time() - ts, 3)))
-    return report.finish(prop, tier, seed, R, outs, t0, update_baseline=args.update_baseline)
+    return report.finish(prop, tier, seed, R, outs, t0, update_baseline=args.update_baseline, skipped=EARLY_STOP["skipped"])
 
 
 if __name__ == "__main__":
